@@ -32,15 +32,17 @@ def controls(ctx):
             raise Inconclusive("Lifecycle.tla: defect %s does not break %s - the invariant would be vacuous:\n%s" % (d, inv, tail(r["out"], 20)))
         done[d] = inv
     # action property: the context is polled between accepts (holds in the design, broken by pollOnlyOnTimeout)
-    for d, want in (("", False), ("pollOnlyOnTimeout", True)):
-        cfg = "MCLC_poll%d.cfg" % int(want)
+    for prop_, d, want in (("PollsContextBetweenAccepts", "", False), ("PollsContextBetweenAccepts", "pollOnlyOnTimeout", True),
+                           ("PollsContextBetweenReads", "", False), ("PollsContextBetweenReads", "serveOnAfterCancel", True)):
+        cfg = "MCLC_%s%d.cfg" % (prop_[-5:], int(want))
         with open(os.path.join(ctx.specdir(), cfg), "w") as f:
-            f.write("SPECIFICATION Spec\nCONSTANTS\n  Conns = {1, 2}\n  MaxPkts = 1\n  Defects = {%s}\n  Record = FALSE\nPROPERTY PollsContextBetweenAccepts\nCHECK_DEADLOCK FALSE\n" % (('"%s"' % d) if d else ""))
+            f.write("SPECIFICATION Spec\nCONSTANTS\n  Conns = {1, 2}\n  MaxPkts = 1\n  Defects = {%s}\n  Record = FALSE\nPROPERTY %s\nCHECK_DEADLOCK FALSE\n" % ((('"%s"' % d) if d else ""), prop_))
         r = ctx.tlc("MC_Lifecycle", cfg=cfg, workers=4, heap="4g", timeout=600)
-        broken = "PollsContextBetweenAccepts is violated" in r["out"] or "Action property" in r["out"] and "violated" in r["out"]
+        broken = ("%s is violated" % prop_) in r["out"] or "Action property" in r["out"] and "violated" in r["out"]
         if broken != want or (not want and "No error has been found" not in r["out"]):
-            raise Inconclusive("Lifecycle.tla: PollsContextBetweenAccepts with defects {%s}: expected %s:\n%s" % (d, "a violation" if want else "no error", tail(r["out"], 20)))
+            raise Inconclusive("Lifecycle.tla: %s with defects {%s}: expected %s:\n%s" % (prop_, d, "a violation" if want else "no error", tail(r["out"], 20)))
     done["pollOnlyOnTimeout"] = "PollsContextBetweenAccepts"
+    done["serveOnAfterCancel"] = "PollsContextBetweenReads"
     # liveness control: a provider that stops answering after cancellation breaks ShutdownCompletes
     cfg = "MCLC_live.cfg"
     with open(os.path.join(ctx.specdir(), cfg), "w") as f:
@@ -195,6 +197,9 @@ def drip_schedules():
     P(3, [["offer", 1], ["release", 1], ["packet", 1], ["hrel", 1], ["tick", 20], ["offer", 2], ["release", 2], ["cancel", 0]])
     P(4, [["offer", 1], ["release", 1], ["packetc", 1], ["hrel", 1], ["packetc", 1], ["hrel", 1], ["cancel", 0]])
     P(5, [["offer", 1], ["offer", 2], ["release", 1], ["release", 2], ["cancel", 0], ["tick", 16]])
+    # an exchange left half-way at the cancellation whose client keeps sending: the read that was blocked may deliver one request
+    out.append({"id": "drain1", "steps": [["offer", 1], ["release", 1], ["packetc", 1], ["hrel", 1], ["cancel", 0], ["packetc", 1], ["hrel", 1], ["packetc", 1], ["hrel", 1], ["packetc", 1], ["hrel", 1]], "refuse": []})
+    out.append({"id": "drain2", "steps": [["offer", 1], ["release", 1], ["offer", 2], ["release", 2], ["packetc", 1], ["hrel", 1], ["packetc", 2], ["cancel", 0], ["hrel", 2], ["packetc", 2], ["hrel", 2], ["packetc", 1], ["hrel", 1], ["packetc", 1], ["hrel", 1], ["packetc", 2], ["hrel", 2]], "refuse": []})
     out.append({"id": "refused1", "steps": [["offer", 1], ["release", 1], ["offer", 2], ["release", 2], ["packet", 2], ["hrel", 2], ["offer", 3], ["release", 3]], "refuse": [1, 3]})
     return out
 
